@@ -210,6 +210,9 @@ def run(ctx):
     rep.rule("C14.R5", "list/callee co-definition (non-contact, non-E_pot families)", 40)
     rep.rule("C14.R6", "scatter method m calls contr.m (frozen exception table)", 60)
     rep.rule("C14.R8", "accumulation into index sets that may repeat an index (uDOF/qDOF of interactions) is unbuffered (np.add.at / COO)", 1)
+    rep.rule("C14.R19", "System.step_callback threads ONE state through the contributions' callbacks: each callback sees what the earlier ones wrote (a contribution without own coordinates that returns its bodies' coordinates unchanged must not overwrite their projection with a stale snapshot)", 5)
+    from .c17 import callback_threading
+    callback_threading(ctx, "C14.R19")
     rep.rule("C14.R18", "assemble() decides for EACH contribution, by looking at that object, which per-property lists it joins (optional quantities are bound per instance: gamma_F only with mu > 0, h or c by compliance_form): no decision cached per type or taken from another instance", 1)
     property_scan_per_instance(ctx)
     rep.rule("C14.R17", "System.add tests 'already part of the system' in the same loop pass that appends: the test has to see what the same call has appended so far (an object listed twice in one add() must be rejected at its second occurrence)", 1)
